@@ -216,6 +216,48 @@ pub fn run(tier: Tier, shard: Shard, stats: &mut Stats) {
             }
         }
     }
+    // wide_bar next to a fixed-width, non-truncating field that its content overflows
+    for tw in 10..=30u16 {
+        case += 1;
+        if !shard.owns(case) {
+            continue;
+        }
+        let catcher = LineCatcher::new(tw);
+        for c in [1usize, 2] {
+            for (tpl, before) in [("{wide_bar} {pos:>1}/{len:2}", false), ("{pos:>2} {wide_bar}", true)] {
+                let set = charset(3, c);
+                let set_s: String = set.iter().collect();
+                let style = ProgressStyle::with_template(tpl).unwrap().progress_chars(&set_s);
+                let pb = bar_on(&catcher, Some(2000), style);
+                for pos in [0u64, 7, 150, 1500, 2000] {
+                    stats.evaluations += 1;
+                    stats.transitions += 1;
+                    let hist = vec![tpl.to_string(), format!("terminal width {tw}"), format!("progress_chars {:?}", set_s), format!("pos {pos} len 2000")];
+                    match catch(|| {
+                        pb.update(|s| s.set_pos(pos));
+                        frame_lines(&catcher, &pb)
+                    }) {
+                        Err(p) => stats.violation(Violation { class: format!("panic: {}", panic_class(&p)), config: "wide_bar+field".into(), history: hist, detail: p }),
+                        Ok(lines) => {
+                            let line = lines.first().cloned().unwrap_or_default();
+                            let cols: usize = line.chars().map(|ch| if set.contains(&ch) && c == 2 { 2 } else { 1 }).sum();
+                            let rest = if before { pos.to_string().len().max(2) + 1 } else { 1 + pos.to_string().len().max(1) + 1 + 4 };
+                            let w = tw as usize;
+                            if rest <= w {
+                                let want = w - ((w - rest) % c);
+                                if cols != want {
+                                    stats.violation(Violation { class: "wide_bar: line is not as wide as the terminal next to an overflowing fixed-width field".into(), config: "wide_bar+field".into(), history: hist, detail: format!("{cols} columns, expected {want}: {:?}", line) });
+                                    continue;
+                                }
+                            }
+                            stats.state(hash_of(&("wide+field", tw, c, before, pos)), true);
+                        }
+                    }
+                }
+                pb.abandon();
+            }
+        }
+    }
     // the terminal is resized between two ordinary redraws of the same bar
     for w1 in 1..=14u16 {
         for w2 in 1..=14u16 {
